@@ -14,6 +14,7 @@ void vf_set_fatal_assume(unsigned v);
 void vf_hb_write(void* p);
 void vf_hb_read(void* p);
 void vf_yield();
+unsigned vf_param(unsigned i);
 }
 #define VF_STR2(x) #x
 #define VF_STR(x) VF_STR2(x)
